@@ -63,37 +63,43 @@ pub fn wallet_db_exists(data_file_dir: &str) -> bool {
 	db_path.exists()
 }
 
-/// Helper to derive XOR keys for storing private transaction keys in the DB
-/// (blind_xor_key, nonce_xor_key)
-fn private_ctx_xor_keys<K>(
-	keychain: &K,
-	slate_id: &[u8],
-) -> Result<([u8; SECRET_KEY_SIZE], [u8; SECRET_KEY_SIZE]), Error>
+/// Format of a stored private transaction context, kept in the trailing u64 of its DB key.
+/// 0 (legacy): only `sec_key` / `sec_nonce` are XOR-masked; `initial_sec_key` /
+/// `initial_sec_nonce` were written in clear. Still read, never written any more.
+const PRIVATE_CTX_FORMAT_LEGACY: u64 = 0;
+/// 1: all four secrets are XOR-masked
+const PRIVATE_CTX_FORMAT_MASKED: u64 = 1;
+
+/// XOR keys for storing the secrets of a private transaction context in the DB
+struct PrivateCtxXorKeys {
+	blind: [u8; SECRET_KEY_SIZE],
+	nonce: [u8; SECRET_KEY_SIZE],
+	initial_blind: [u8; SECRET_KEY_SIZE],
+	initial_nonce: [u8; SECRET_KEY_SIZE],
+}
+
+/// Helper to derive XOR keys for storing private transaction keys in the DB:
+/// h(root_key|slate_id|label) for each of the four stored secrets
+fn private_ctx_xor_keys<K>(keychain: &K, slate_id: &[u8]) -> Result<PrivateCtxXorKeys, Error>
 where
 	K: Keychain,
 {
 	let root_key = keychain.derive_key(0, &K::root_key_id(), SwitchCommitmentType::Regular)?;
-
-	// derive XOR values for storing secret values in DB
-	// h(root_key|slate_id|"blind")
-	let mut hasher = Blake2b::new(SECRET_KEY_SIZE);
-	hasher.update(&root_key.0[..]);
-	hasher.update(&slate_id[..]);
-	hasher.update(&b"blind"[..]);
-	let blind_xor_key = hasher.finalize();
-	let mut ret_blind = [0; SECRET_KEY_SIZE];
-	ret_blind.copy_from_slice(&blind_xor_key.as_bytes()[0..SECRET_KEY_SIZE]);
-
-	// h(root_key|slate_id|"nonce")
-	let mut hasher = Blake2b::new(SECRET_KEY_SIZE);
-	hasher.update(&root_key.0[..]);
-	hasher.update(&slate_id[..]);
-	hasher.update(&b"nonce"[..]);
-	let nonce_xor_key = hasher.finalize();
-	let mut ret_nonce = [0; SECRET_KEY_SIZE];
-	ret_nonce.copy_from_slice(&nonce_xor_key.as_bytes()[0..SECRET_KEY_SIZE]);
-
-	Ok((ret_blind, ret_nonce))
+	let derive = |label: &[u8]| {
+		let mut hasher = Blake2b::new(SECRET_KEY_SIZE);
+		hasher.update(&root_key.0[..]);
+		hasher.update(&slate_id[..]);
+		hasher.update(label);
+		let mut ret = [0; SECRET_KEY_SIZE];
+		ret.copy_from_slice(&hasher.finalize().as_bytes()[0..SECRET_KEY_SIZE]);
+		ret
+	};
+	Ok(PrivateCtxXorKeys {
+		blind: derive(&b"blind"[..]),
+		nonce: derive(&b"nonce"[..]),
+		initial_blind: derive(&b"initial_blind"[..]),
+		initial_nonce: derive(&b"initial_nonce"[..]),
+	})
 }
 
 pub struct LMDBBackend<'ck, C, K>
@@ -343,17 +349,36 @@ where
 		keychain_mask: Option<&SecretKey>,
 		slate_id: &[u8],
 	) -> Result<Context, Error> {
-		let ctx_key = to_key_u64(PRIVATE_TX_CONTEXT_PREFIX, &mut slate_id.to_vec(), 0);
-		let (blind_xor_key, nonce_xor_key) =
-			private_ctx_xor_keys(&self.keychain(keychain_mask)?, slate_id)?;
+		let xor_keys = private_ctx_xor_keys(&self.keychain(keychain_mask)?, slate_id)?;
+		let ctx_key = to_key_u64(
+			PRIVATE_TX_CONTEXT_PREFIX,
+			&mut slate_id.to_vec(),
+			PRIVATE_CTX_FORMAT_MASKED,
+		);
+		let legacy_key = to_key_u64(
+			PRIVATE_TX_CONTEXT_PREFIX,
+			&mut slate_id.to_vec(),
+			PRIVATE_CTX_FORMAT_LEGACY,
+		);
 
-		let mut ctx: Context = option_to_not_found(self.db.get_ser(&ctx_key, None), || {
-			format!("Slate id: {:x?}", slate_id.to_vec())
-		})?;
+		// contexts saved by earlier versions hold their initial_* secrets unmasked
+		let (mut ctx, initial_masked): (Context, bool) = match self.db.get_ser(&ctx_key, None)? {
+			Some(c) => (c, true),
+			None => (
+				option_to_not_found(self.db.get_ser(&legacy_key, None), || {
+					format!("Slate id: {:x?}", slate_id.to_vec())
+				})?,
+				false,
+			),
+		};
 
 		for i in 0..SECRET_KEY_SIZE {
-			ctx.sec_key.0[i] ^= blind_xor_key[i];
-			ctx.sec_nonce.0[i] ^= nonce_xor_key[i];
+			ctx.sec_key.0[i] ^= xor_keys.blind[i];
+			ctx.sec_nonce.0[i] ^= xor_keys.nonce[i];
+			if initial_masked {
+				ctx.initial_sec_key.0[i] ^= xor_keys.initial_blind[i];
+				ctx.initial_sec_nonce.0[i] ^= xor_keys.initial_nonce[i];
+			}
 		}
 
 		Ok(ctx)
@@ -732,31 +757,56 @@ where
 	}
 
 	fn save_private_context(&mut self, slate_id: &[u8], ctx: &Context) -> Result<(), Error> {
-		let ctx_key = to_key_u64(PRIVATE_TX_CONTEXT_PREFIX, &mut slate_id.to_vec(), 0);
-		let (blind_xor_key, nonce_xor_key) = private_ctx_xor_keys(self.keychain(), slate_id)?;
+		let ctx_key = to_key_u64(
+			PRIVATE_TX_CONTEXT_PREFIX,
+			&mut slate_id.to_vec(),
+			PRIVATE_CTX_FORMAT_MASKED,
+		);
+		let legacy_key = to_key_u64(
+			PRIVATE_TX_CONTEXT_PREFIX,
+			&mut slate_id.to_vec(),
+			PRIVATE_CTX_FORMAT_LEGACY,
+		);
+		let xor_keys = private_ctx_xor_keys(self.keychain(), slate_id)?;
 
 		let mut s_ctx = ctx.clone();
 		for i in 0..SECRET_KEY_SIZE {
-			s_ctx.sec_key.0[i] ^= blind_xor_key[i];
-			s_ctx.sec_nonce.0[i] ^= nonce_xor_key[i];
+			s_ctx.sec_key.0[i] ^= xor_keys.blind[i];
+			s_ctx.sec_nonce.0[i] ^= xor_keys.nonce[i];
+			s_ctx.initial_sec_key.0[i] ^= xor_keys.initial_blind[i];
+			s_ctx.initial_sec_nonce.0[i] ^= xor_keys.initial_nonce[i];
 		}
 
-		self.db
-			.borrow()
-			.as_ref()
-			.unwrap()
-			.put_ser(&ctx_key, &s_ctx)?;
+		let db = self.db.borrow();
+		let db = db.as_ref().unwrap();
+		db.put_ser(&ctx_key, &s_ctx)?;
+		// an updated context replaces the record an earlier version may have left
+		if db.exists(&legacy_key)? {
+			db.delete(&legacy_key)?;
+		}
 		Ok(())
 	}
 
 	fn delete_private_context(&mut self, slate_id: &[u8]) -> Result<(), Error> {
-		let ctx_key = to_key_u64(PRIVATE_TX_CONTEXT_PREFIX, &mut slate_id.to_vec(), 0);
-		self.db
-			.borrow()
-			.as_ref()
-			.unwrap()
-			.delete(&ctx_key)
-			.map_err(|e| e.into())
+		let ctx_key = to_key_u64(
+			PRIVATE_TX_CONTEXT_PREFIX,
+			&mut slate_id.to_vec(),
+			PRIVATE_CTX_FORMAT_MASKED,
+		);
+		let legacy_key = to_key_u64(
+			PRIVATE_TX_CONTEXT_PREFIX,
+			&mut slate_id.to_vec(),
+			PRIVATE_CTX_FORMAT_LEGACY,
+		);
+		let db = self.db.borrow();
+		let db = db.as_ref().unwrap();
+		if db.exists(&legacy_key)? {
+			db.delete(&legacy_key)?;
+			if !db.exists(&ctx_key)? {
+				return Ok(());
+			}
+		}
+		db.delete(&ctx_key).map_err(|e| e.into())
 	}
 
 	fn commit(&self) -> Result<(), Error> {
